@@ -1,14 +1,19 @@
 (* C16 - UF2 writer output is well-formed and reproduces the data.
-   Statements only; proofs live in Uf2/WriteProofs.v.  Model: Uf2/WriteModel.v (src/uf2/write.rs after the
+   Statements only; proofs live in Uf2/WriteProofs.v (one call, no panic, refusals, one block) and
+   Uf2/WriteRunProofs.v (whole call sequences: block numbering, read-back, refused calls).  Model: Uf2/WriteModel.v (src/uf2/write.rs after the
    repair 7baf144); oracle: Uf2/ReaderSpec.v (an independent UF2 reader).
 
    Common hypotheses:  dest_ok d      - the destination is at most isize::MAX bytes long (a Rust guarantee);
                        call_ok w      - the address is a u32;
                        cost ops <= u32::MAX - the calls carry fewer than 2^32 bytes + calls in total.  This keeps the
                        block counter below u32::MAX: `write` (unlike `write_all`) does not test the counter, so after
-                       2^32 - 1 blocks (a 2 TiB output) `self.count += 1` would overflow.  Not executable; reported. *)
+                       2^32 - 1 blocks (a 2 TiB output) `self.count += 1` would overflow.  Not executable; reported.
+                       info_of c <= u32_max - the family id is a u32 (read-back theorems only).
+   Vocabulary of the whole-sequence theorems (Uf2/WriteRunProofs.v): accepted ops rs = the calls whose result is Ok,
+   is_rok r = r is an Ok result, sum_blocks c ws = sum of ReaderSpec.blocks_of_call c over ws,
+   item_addr = the address of a read-back item. *)
 From Coq Require Import NArith List Bool.
-From Trion Require Import Uf2.WriteTypes Uf2.WriteModel Uf2.ReaderSpec Uf2.WriteProofs.
+From Trion Require Import Uf2.WriteTypes Uf2.WriteModel Uf2.ReaderSpec Uf2.WriteProofs Uf2.WriteRunProofs.
 Import ListNotations.
 Open Scope N_scope.
 
@@ -73,29 +78,63 @@ Theorem C16_block_fields : forall c bg k a data bl nf T,
           rb_info := info_of c; rb_data := data ++ repeat 0 (N.to_nat (476 - len data)) |}.
 Proof. exact parse_blk. Qed.
 
-(* After drop the blocks form a whole number of 512-byte blocks (the reader's split succeeds and returns exactly the
-   stored blocks), as many as the block counter says, fewer than 2^32. *)
-Theorem C16_blocks_partial : forall debug c d ops,
+(* Whole call sequences.  For an accepted configuration and ANY sequence of write / write_all calls, after drop the
+   independent reader accepts the output: it is a whole number of 512-byte blocks, each with the three magic numbers;
+   block k carries block number k and total = the number of blocks, the family-id flag and the family id iff one is
+   configured (no other flag than family-id / not-main-flash), a payload size between 1 and the configured size
+   (<= 476) that is a multiple of the alignment.  (blocks_wellformed = ReaderSpec's clause 1; info_of c <= u32_max:
+   the family id is a u32.) *)
+Theorem C16_blocks : forall debug c d ops,
+  dest_ok d -> Forall call_ok ops -> cost ops <= u32_max -> info_of c <= u32_max ->
+  forall rs st, session debug c d ops = SDone rs (Some st) ->
+  blocks_wellformed c (concat (s_blocks st)) = true.
+Proof. exact session_blocks_wellformed. Qed.
+
+(* Reading the blocks back (the reader copies `payload size` bytes of each block to its target address) yields, in file
+   order, exactly what the accepted calls (`accepted ops rs` = the calls whose result is Ok) ask for: for each call the
+   data at its address, followed only by zeros up to the next multiple of the alignment (write_all) or up to the
+   payload size (write), with the call's not-main-flash flag; nothing from a refused call. *)
+Theorem C16_reconstruct : forall debug c d ops,
+  dest_ok d -> Forall call_ok ops -> cost ops <= u32_max -> info_of c <= u32_max ->
+  forall rs st, session debug c d ops = SDone rs (Some st) ->
+  reconstructs c (accepted ops rs) (concat (s_blocks st)) = true.
+Proof. exact session_reconstructs. Qed.
+
+(* ... and the items of one call have pairwise different (consecutive) addresses: no address is emitted twice *)
+Theorem C16_reconstruct_once : forall c w, NoDup (map item_addr (expected_call c w)).
+Proof. exact expected_call_nodup. Qed.
+
+(* Refused calls, whole-sequence form.  Deleting the refused calls from the sequence gives the same results for the
+   other calls and the same final writer state (every block byte, position, counter): a refused call has no effect. *)
+Theorem C16_reject : forall debug c d ops rs st,
+  session debug c d ops = SDone rs (Some st) ->
+  session debug c d (accepted ops rs) = SDone (filter is_rok rs) (Some st).
+Proof. exact session_skip_rejected. Qed.
+
+(* From any reachable state a call sequence only appends to the stored blocks (earlier blocks stay as they are), and
+   appends exactly the blocks its accepted calls ask for (ReaderSpec.blocks_of_call): a refused call appends none. *)
+Theorem C16_reject_appends : forall debug st ops rs st',
+  inv st -> Forall call_ok ops -> s_count st + cost ops <= u32_max ->
+  run debug st ops = (rs, Some st') ->
+  exists new, s_blocks st' = s_blocks st ++ new
+              /\ N.of_nat (length new) = sum_blocks (s_cfg st) (accepted ops rs).
+Proof. exact run_appends. Qed.
+
+(* The output is counter x 512 bytes, the counter = number of stored blocks = sum of the accepted calls' block numbers
+   (1 per non-empty write, ceil(padded length / payload size) per write_all), fewer than 2^32. *)
+Theorem C16_block_count : forall debug c d ops,
   dest_ok d -> Forall call_ok ops -> cost ops <= u32_max ->
   forall rs st, session debug c d ops = SDone rs (Some st) ->
-  split_blocks (length (concat (s_blocks st))) (concat (s_blocks st)) = Some (s_blocks st)
-  /\ len (concat (s_blocks st)) = 512 * s_count st
+  len (concat (s_blocks st)) = 512 * s_count st
+  /\ s_count st = sum_blocks c (accepted ops rs)
+  /\ N.of_nat (length (s_blocks st)) = s_count st
   /\ s_count st <= u32_max.
-Proof. exact session_whole_blocks. Qed.
+Proof. exact session_counts. Qed.
 
-(* NOT PROVED (full statements; checked on every run by evaluating ReaderSpec on the implementation's bytes):
-
-   C16_blocks : forall debug c d ops, dest_ok d -> Forall call_ok ops -> cost ops <= u32_max -> info_of c <= u32_max ->
-     forall rs st, session debug c d ops = SDone rs (Some st) ->
-     blocks_wellformed c (concat (s_blocks st)) = true.
-   Missing: the induction over the run that carries "s_blocks st = the list of `blk c bg k ...` with k = 0, 1, ..."
-   (C16_block_fields + C16_step_is_pure + C16_blocks_partial are its three ingredients; the glue is not written).
-
-   C16_reconstruct : (same hypotheses) ->
-     reconstructs c (accepted ops rs) (concat (s_blocks st)) = true
-     where accepted ops rs = the calls whose result is ROk.
-   Missing: the same induction plus the per-call lemma "the blocks of one write_all read back as
-   zip_from addr (data ++ zeros)" (from WriteProofs.chunks_count: chunks are full except the last, concat = data). *)
+(* Nothing of C16 is left unproved for the model.  What the theorems do not cover (see props/C16.json): runs with
+   2^32 or more bytes + calls (cost ops > u32::MAX: `write` does not test the block counter), and the tie between the
+   model and write.rs, which is the correspondence stream (it also evaluates blocks_wellformed / reconstructs on the
+   implementation's bytes on every run). *)
 
 (* non-vacuity *)
 Definition ex_cfg := {| c_fam := Some 0xE48BFF56; c_bs := 4; c_align := 2 |}.
@@ -109,5 +148,7 @@ Theorem C16_examples :
   res_of (session true ex_cfg (DVector 0) [ex_w0; ex_w1; ex_w2]) = [ROk 2; RErr EOverflow; ROk 0]
   /\ blocks_wellformed ex_cfg (out_of (session true ex_cfg (DVector 0) [ex_w0; ex_w1; ex_w2])) = true
   /\ reconstructs ex_cfg [ex_w0; ex_w2] (out_of (session true ex_cfg (DVector 0) [ex_w0; ex_w1; ex_w2])) = true
-  /\ reconstructs ex_cfg [ex_w0; ex_w1; ex_w2] (out_of (session true ex_cfg (DVector 0) [ex_w0; ex_w1; ex_w2])) = false.
+  /\ reconstructs ex_cfg [ex_w0; ex_w1; ex_w2] (out_of (session true ex_cfg (DVector 0) [ex_w0; ex_w1; ex_w2])) = false
+  /\ accepted [ex_w0; ex_w1; ex_w2] (res_of (session true ex_cfg (DVector 0) [ex_w0; ex_w1; ex_w2])) = [ex_w0; ex_w2]
+  /\ sum_blocks ex_cfg [ex_w0; ex_w2] = 3.
 Proof. vm_compute. repeat split. Qed.
